@@ -105,6 +105,26 @@ RefRead(files, i, name) ==
         ELSE [found |-> TRUE, type |-> files[j].type, pieces |-> Expected(files[j]),
               skipped |-> [x \in 1..(j - i) |-> files[i + x - 1].name], next |-> j + 1]
 
+\* The same with the type filter of the reading statement (OPEN FOR INPUT wants {"D"}, LOAD {"A","B","P"}, BLOAD {"M"}) and the
+\* nameless form (name = "": the next file of a wanted type): files of other types are passed over and reported as skipped.
+RECURSIVE FileFromW(_, _, _, _)
+FileFromW(files, i, name, want) ==
+    IF i > Len(files) THEN 0
+    ELSE IF (name = "" \/ files[i].name = name) /\ files[i].type \in want THEN i
+    ELSE FileFromW(files, i + 1, name, want)
+RefReadW(files, i, name, want) ==
+    LET j == FileFromW(files, i, name, want)
+    IN  IF j = 0 THEN [found |-> FALSE]
+        ELSE [found |-> TRUE, type |-> files[j].type, pieces |-> Expected(files[j]),
+              skipped |-> [x \in 1..(j - i) |-> files[i + x - 1].name], next |-> j + 1]
+\* with every type wanted and a name, it is the read by name
+ASSUME \A want \in {{"D"}, {"A", "B", "P"}} :
+         LET fs == <<[name |-> "X", type |-> "D", len |-> 1, id |-> 1], [name |-> "Y", type |-> "B", len |-> 2, id |-> 2],
+                     [name |-> "Z", type |-> "D", len |-> 3, id |-> 3]>>
+         IN  /\ RefReadW(fs, 1, "", want).next = (IF "D" \in want THEN 2 ELSE 3)
+             /\ RefReadW(fs, 2, "", want).next = (IF "D" \in want THEN 4 ELSE 3)
+             /\ RefReadW(fs, 1, "Z", {"D"}) = RefRead(fs, 1, "Z")
+
 \* ---------------------------------------------------------------- the property on the record layer
 \* record position of the header of the i-th file (files and headers are in the same order)
 RECURSIVE HdrPos(_, _, _)
